@@ -175,6 +175,11 @@ func DecodeString(inp []byte, startIndex int) (str []byte, bytesRead int, err er
 	}
 
 	// single character special case
+	// check the bounds by subtraction: dataStartIndex + dataSize may overflow
+	if dataSize > len(inp)-dataStartIndex {
+		return nil, 0, ErrIncompleteInput
+	}
+
 	if dataSize == 1 && startIndex == dataStartIndex {
 		return []byte{inp[dataStartIndex]}, 1, nil
 	}
@@ -187,9 +192,6 @@ func DecodeString(inp []byte, startIndex int) (str []byte, bytesRead int, err er
 
 	// collect and return string
 	dataEndIndex := dataStartIndex + dataSize
-	if dataEndIndex > len(inp) {
-		return nil, 0, ErrIncompleteInput
-	}
 
 	return inp[dataStartIndex:dataEndIndex], dataEndIndex - startIndex, nil
 }
@@ -215,7 +217,8 @@ func DecodeList(inp []byte, startIndex int) (encodedItems [][]byte, bytesRead in
 		return retList, 1, nil
 	}
 
-	if listDataSize+dataStartIndex > len(inp) {
+	// check the bounds by subtraction: the sum may overflow
+	if listDataSize > len(inp)-dataStartIndex {
 		return nil, 0, ErrIncompleteInput
 	}
 
@@ -228,10 +231,11 @@ func DecodeList(inp []byte, startIndex int) (encodedItems [][]byte, bytesRead in
 			return nil, 0, err
 		}
 		// collect encoded item
-		itemEndIndex = itemDataStartIndex + itemSize
-		if itemEndIndex > len(inp) {
+		// check the bounds by subtraction: the sum may overflow
+		if itemSize > len(inp)-itemDataStartIndex {
 			return nil, 0, ErrIncompleteInput
 		}
+		itemEndIndex = itemDataStartIndex + itemSize
 		retList = append(retList, inp[itemStartIndex:itemEndIndex])
 		dataBytesRead += itemEndIndex - itemStartIndex
 		itemStartIndex = itemEndIndex
